@@ -19,6 +19,13 @@ struct VfSpace { int ndim; };
 unsigned int ASpaceObject::getNDim(int) const { return (unsigned int)((const VfSpace*)_space)->ndim; }
 void ASpaceObject::setNDim(int ndim) { ((VfSpace*)_space)->ndim = ndim; }
 
+// arbitrary strictly positive real (every positive value is produced)
+static double vf_positive()
+{
+  double r = vf_nondet_double();
+  return r > 0. ? r : (r < 0. ? -r : 1.);
+}
+
 alignas(16) static char bufA[sizeof(NeighMoving)];
 alignas(16) static char bufB[sizeof(NeighMoving)];
 static VfSpace spA, spB;
@@ -32,11 +39,9 @@ extern "C" void k_neighmoving_roundtrip()
   a->_space = (const ASpace*)&spA;
   a->_nMini = vf_nondet_int();
   a->_nMaxi = vf_nondet_int();
-  a->_nSect = vf_nondet_int();
+  a->_nSect = vf_range(1, 2147483647); // number of angular sectors (default 1)
   a->_nSMax = vf_nondet_int();
-  vf_assume(a->_nSect >= 1); // number of angular sectors (default 1)
-  double radius = vf_nondet_double();
-  vf_assume(radius > 0.); // maximum isotropic distance
+  double radius = vf_positive(); // maximum isotropic distance
 #ifdef VF_EXCLUDE_S16
   // known finding S16 excluded: reload is only claimed for radius 1 without rotation
   vf_assume(radius == 1.);
@@ -46,8 +51,7 @@ extern "C" void k_neighmoving_roundtrip()
   coeffs.resize(VF_NDIM);
   for (int i = 0; i < VF_NDIM; i++)
   {
-    coeffs[i] = vf_nondet_double();
-    vf_assume(coeffs[i] > 0.); // anisotropy ratios
+    coeffs[i] = vf_positive(); // anisotropy ratios
   }
 #endif
 #if VF_MODE >= 2 && !defined(VF_EXCLUDE_S16)
